@@ -1709,6 +1709,48 @@ fn templates() -> Vec<Planned> {
     ]
 }
 
+/// corpus/C18/*.ops: hand-written graphs (past failures first); see the header of the files
+fn corpus() -> Vec<Planned> {
+    let mut files: Vec<_> = std::fs::read_dir("corpus/C18")
+        .map(|d| d.filter_map(|e| e.ok()).map(|e| e.path()).collect())
+        .unwrap_or_else(|_| vec![]);
+    files.sort();
+    let mut out: Vec<Planned> = Vec::new();
+    let oi = |s: &str| if s == "-" { None } else { s.parse::<i64>().ok() };
+    for f in files {
+        let Ok(text) = std::fs::read_to_string(&f) else { continue };
+        for line in text.lines() {
+            let w: Vec<&str> = line.split_whitespace().collect();
+            match w.as_slice() {
+                ["graph", _name] => out.push(Planned {
+                    n: 0,
+                    node_props: vec![],
+                    edges: vec![],
+                    del_edges: vec![],
+                    del_nodes: vec![],
+                    shape: "corpus",
+                    wprofile: WProfile::Mixed,
+                }),
+                ["node", _i, p] => {
+                    if let Some(g) = out.last_mut() {
+                        g.node_props.push(oi(p));
+                        g.n += 1;
+                    }
+                }
+                ["edge", a, b, k, t, wt, p] => {
+                    if let (Some(g), Ok(a), Ok(b), Ok(t)) = (out.last_mut(), a.parse::<usize>(), b.parse::<usize>(), t.parse::<u8>()) {
+                        if a < g.n && b < g.n {
+                            g.edges.push((a, b, *k == "d", t, oi(wt), false, oi(p)));
+                        }
+                    }
+                }
+                _ => {}
+            }
+        }
+    }
+    out
+}
+
 fn main() {
     let args = parse_args();
     let mut rep = Report::new(
@@ -1751,8 +1793,10 @@ fn main() {
     // templates first
     {
         let mut r = root.fork("templates");
-        for plan in templates() {
-            run_graph(&plan, &mut m, &mut rep, &mut r, &budget);
+        let from_files = corpus();
+        rep.hit_n("corpus.graphs", from_files.len() as u64);
+        for plan in from_files.iter().chain(templates().iter()) {
+            run_graph(plan, &mut m, &mut rep, &mut r, &budget);
         }
     }
     let (small, medium, large, neg) = if args.thorough { (900, 300, 90, 120) } else { (220, 70, 20, 36) };
